@@ -125,15 +125,7 @@ theorem Emb_trunc {K0 : Int} {gen gen' added : List Info} {V : List Cell} (h : E
     exact Loc_mono (h.after i (hsub i hi).1 p hp (by omega)) (fun _ h => h)
       (List.getElem?_take_of_lt hpm)
 
-/-! ### the queue side of the joint invariant -/
-
-structure QInv (K0 : Int) (q : QState) (tl : List Cell) : Prop where
-  wf : WF q
-  once : Once q
-  len : (tl.length : Int) = K0 + q.samples
-  idle : q.paused = true → srcDone q
-  uid : q.added.map (·.uid) = List.range q.added.length
-  emb : Emb K0 q.generated q.added (tl ++ rest q)
+/-! ### what one sample does to the logs and to the committed view -/
 
 theorem rest_of_srcDone {s : QState} (h : srcDone s) : rest s = zeros s.delaySamples.toNat := by
   rw [← rest_dropSrc s h]; simp [rest, dropSrc]
@@ -147,29 +139,30 @@ theorem idle_iff (s : QState) : idle s = true ↔ srcDone s := by
   | none => simp
   | some src => simp
 
-/-- one sample of the per-sample timeline keeps the invariant; the logs only grow -/
-theorem QInv_tick {K0 : Int} {q q' : QState} {tl : List Cell} {c : Cell} (inv : QInv K0 q tl)
+/-- one tick either leaves the logs alone and appends `z ≤ 1` samples of silence to the committed
+view, or notifies one trial and appends its waveform and delay at its notified position -/
+inductive TickView (K0 : Int) (q q' : QState) (tl : List Cell) (c : Cell) : Prop
+  | quiet (z : Nat) (hg : q'.generated = q.generated) (ha : q'.added = q.added)
+      (hv : tl ++ [c] ++ rest q' = (tl ++ rest q) ++ zeros z)
+  | start (info : Info) (hg : q'.generated = q.generated ++ [info]) (ha : q'.added = q.added ++ [info])
+      (hk : K0 + info.k = ((tl ++ rest q).length : Int)) (hl : 0 < info.len) (hu : info.uid = q.added.length)
+      (hv : tl ++ [c] ++ rest q' = (tl ++ rest q) ++ (wave info.key 0 info.len ++ zeros info.delay.toNat))
+
+theorem tick_view {K0 : Int} {q q' : QState} {tl : List Cell} {c : Cell}
+    (len : (tl.length : Int) = K0 + q.samples) (idl : q.paused = true → srcDone q)
     (h : tick q = .ok (c, q')) :
-    QInv K0 q' (tl ++ [c]) ∧ q.added <+: q'.added ∧ q'.removed = q.removed := by
-  obtain ⟨wf, once, len, idl, uid, emb⟩ := inv
-  have wf' := tick_WF wf h
-  have once' := Once_tick once h
-  have len' : ((tl ++ [c]).length : Int) = K0 + q'.samples := by
-    rw [tick_samples h]; simp only [List.length_append, List.length_singleton]; push_cast; omega
+    TickView K0 q q' tl c ∧ q'.removed = q.removed ∧ (q'.paused = true → srcDone q') := by
   cases tick_cases h with
   | paused hp hc hs =>
     subst hs hc
     have hd := idl hp
     have hr : rest (bump q) = rest q := by simp [rest, bump]
-    refine ⟨⟨wf', once', len', fun _ => by simpa [srcDone, bump] using hd, by simpa [bump] using uid, ?_⟩,
-      by simp [bump], by simp [bump]⟩
-    have : tl ++ [Cell.Z] ++ rest (bump q) = (tl ++ rest q) ++ zeros 1 := by
-      rw [hr, rest_of_srcDone hd]
-      have := zeros_comm 1 q.delaySamples.toNat
-      simp only [zeros, List.replicate_one] at this ⊢
-      simp [this]
-    rw [this]
-    simpa [bump] using Emb_zeros emb 1
+    refine ⟨.quiet 1 (by simp [bump]) (by simp [bump]) ?_, by simp [bump],
+      fun _ => by simpa [srcDone, bump] using hd⟩
+    rw [hr, rest_of_srcDone hd]
+    have := zeros_comm 1 q.delaySamples.toNat
+    simp only [zeros, List.replicate_one] at this ⊢
+    simp [this]
   | play src hp hsrc hlt he =>
     have hsame := emitSrc_same q src
     have hf := emitSrc_fields q src
@@ -178,38 +171,30 @@ theorem QInv_tick {K0 : Int} {q q' : QState} {tl : List Cell} {c : Cell} (inv : 
     have hr := rest_emit q src hsrc hlt
     rw [← he] at hr
     simp only at hr
-    refine ⟨⟨wf', once', len', fun hp' => absurd hp' (by rw [hf.2.1, hp]; simp), by rw [hsame.2.2.2]; exact uid, ?_⟩,
-      by rw [hsame.2.2.2]; exact List.prefix_refl _, hsame.2.2.1⟩
-    have : tl ++ [c] ++ rest q' = tl ++ rest q := by rw [hr, hf.1]; simp
-    rw [this, hsame.2.1, hsame.2.2.2]
-    exact emb
+    refine ⟨.quiet 0 hsame.2.1 hsame.2.2.2 ?_, hsame.2.2.1,
+      fun hp' => absurd hp' (by rw [hf.2.1, hp]; simp)⟩
+    rw [hr, hf.1]; simp [zeros]
   | gap hp hdone hd hc hs =>
     subst hs hc
     have hr : rest q = Cell.Z :: zeros (q.delaySamples - 1).toNat := by
       rw [rest_of_srcDone hdone]
       have : q.delaySamples.toNat = (q.delaySamples - 1).toNat + 1 := by omega
       rw [this, zeros_succ]
-    refine ⟨⟨wf', once', len', fun hp' => by simp [bump, dropSrc, hp] at hp', by simpa [bump, dropSrc] using uid, ?_⟩,
-      by simp [bump, dropSrc], by simp [bump, dropSrc]⟩
-    have : tl ++ [Cell.Z] ++ rest (bump { dropSrc q with delaySamples := q.delaySamples - 1 }) = tl ++ rest q := by
-      rw [hr]; simp [rest, bump, dropSrc]
-    rw [this]
-    simpa [bump, dropSrc] using emb
+    refine ⟨.quiet 0 (by simp [bump, dropSrc]) (by simp [bump, dropSrc]) ?_, by simp [bump, dropSrc],
+      fun hp' => by simp [bump, dropSrc, hp] at hp'⟩
+    rw [hr]; simp [rest, bump, dropSrc, zeros]
   | dry hp hdone hd hk hc hs =>
     subst hs hc
     have hz : q.delaySamples.toNat = 0 := by omega
     have hr : rest q = [] := by rw [rest_of_srcDone hdone, hz]; rfl
-    refine ⟨⟨wf', once', len', fun hp' => by simp [bump, dropSrc, hp] at hp', by simpa [bump, dropSrc] using uid, ?_⟩,
-      by simp [bump, dropSrc], by simp [bump, dropSrc]⟩
-    have : tl ++ [Cell.Z] ++ rest (bump { dropSrc q with empty := true }) = (tl ++ rest q) ++ zeros 1 := by
-      rw [hr]; simp [rest, bump, dropSrc, hz, zeros]
-    rw [this]
-    simpa [bump, dropSrc] using Emb_zeros emb 1
+    refine ⟨.quiet 1 (by simp [bump, dropSrc]) (by simp [bump, dropSrc]) ?_, by simp [bump, dropSrc],
+      fun hp' => by simp [bump, dropSrc, hp] at hp'⟩
+    rw [hr]; simp [rest, bump, dropSrc, hz, zeros]
   | start s1 src hp hdone hd hn hsrc hlt he =>
     have hz : q.delaySamples.toNat = 0 := by omega
     have hr : rest q = [] := by rw [rest_of_srcDone hdone, hz]; rfl
     obtain ⟨info, g, ha, hg, hk, hu, hs1, hdl, hd0, hsm, hpa, _, hrm, _⟩ := nextTrial_obs hn
-    simp only [dropSrc] at ha hg hk hsm hpa hrm
+    simp only [dropSrc] at ha hg hk hu hsm hpa hrm
     rw [hs1] at hsrc
     simp only [Option.some.injEq] at hsrc
     subst hsrc
@@ -222,17 +207,56 @@ theorem QInv_tick {K0 : Int} {q q' : QState} {tl : List Cell} {c : Cell} (inv : 
     simp only at hr1
     have hrs1 : rest s1 = wave info.key 0 info.len ++ zeros info.delay.toNat := by
       simp [rest, hs1, hdl]
-    refine ⟨⟨wf', once', len', fun hp' => absurd hp' (by rw [hf.2.1, hpa, hp]; simp), ?_, ?_⟩,
-      by rw [hsame.2.2.2, ha]; exact List.prefix_append _ _, by rw [hsame.2.2.1, hrm]⟩
-    · rw [hsame.2.2.2, ha]
+    refine ⟨.start info (by rw [hsame.2.1, hg]) (by rw [hsame.2.2.2, ha]) ?_ hlt hu ?_,
+      by rw [hsame.2.2.1, hrm], fun hp' => absurd hp' (by rw [hf.2.1, hpa, hp]; simp)⟩
+    · rw [hr, List.append_nil, hk, len]
+    · rw [hr, List.append_nil, ← hrs1, hr1, hf.1]; simp
+
+/-! ### the queue side of the joint invariant -/
+
+structure QInv (K0 : Int) (q : QState) (tl : List Cell) : Prop where
+  wf : WF q
+  once : Once q
+  len : (tl.length : Int) = K0 + q.samples
+  idle : q.paused = true → srcDone q
+  uid : q.added.map (·.uid) = List.range q.added.length
+  lenpos : ∀ i ∈ q.generated, 0 < i.len
+  sorted : q.generated.Pairwise (fun a b => a.k < b.k)
+  emb : Emb K0 q.generated q.added (tl ++ rest q)
+
+/-- one sample of the per-sample timeline keeps the invariant; the logs only grow -/
+theorem QInv_tick {K0 : Int} {q q' : QState} {tl : List Cell} {c : Cell} (inv : QInv K0 q tl)
+    (h : tick q = .ok (c, q')) :
+    QInv K0 q' (tl ++ [c]) ∧ q.added <+: q'.added ∧ q'.removed = q.removed := by
+  obtain ⟨wf, once, len, idl, uid, lenpos, sorted, emb⟩ := inv
+  have wf' := tick_WF wf h
+  have once' := Once_tick once h
+  have len' : ((tl ++ [c]).length : Int) = K0 + q'.samples := by
+    rw [tick_samples h]; simp only [List.length_append, List.length_singleton]; push_cast; omega
+  obtain ⟨tv, hrm, idl'⟩ := tick_view len idl h
+  cases tv with
+  | quiet z hg ha hv =>
+    refine ⟨⟨wf', once', len', idl', by rw [ha]; exact uid, by rw [hg]; exact lenpos,
+      by rw [hg]; exact sorted, ?_⟩, by rw [ha]; exact List.prefix_refl _, hrm⟩
+    rw [hv, hg, ha]; exact Emb_zeros emb z
+  | start info hg ha hk hl hu hv =>
+    refine ⟨⟨wf', once', len', idl', ?_, ?_, ?_, ?_⟩, by rw [ha]; exact List.prefix_append _ _, hrm⟩
+    · rw [ha]
       simp only [List.map_append, List.map_cons, List.map_nil, List.length_append, List.length_cons,
-        List.length_nil, List.range_succ, uid]
-      rw [hu]; simp [dropSrc]
-    · have : tl ++ [c] ++ rest q' = (tl ++ rest q) ++ (wave info.key 0 info.len ++ zeros info.delay.toNat) := by
-        rw [hr, List.append_nil, ← hrs1, hr1, hf.1]; simp
-      rw [this, hsame.2.1, hsame.2.2.2, ha, hg]
-      apply Emb_start emb
-      rw [hr, List.append_nil, hk, len]
+        List.length_nil, List.range_succ, uid, hu]
+    · intro i hi
+      rw [hg] at hi
+      rcases List.mem_append.1 hi with hi | hi
+      · exact lenpos i hi
+      · simp only [List.mem_singleton] at hi; subst hi; exact hl
+    · rw [hg, List.pairwise_append]
+      refine ⟨sorted, by simp, ?_⟩
+      intro a ha' b hb
+      simp only [List.mem_singleton] at hb; subst hb
+      have := emb.pos a ha'
+      have := lenpos a ha'
+      omega
+    · rw [hv, hg, ha]; exact Emb_start emb info hk
 
 theorem QInv_runTicks {K0 : Int} (n : Nat) {q q' : QState} {tl cs : List Cell} (inv : QInv K0 q tl)
     (h : runTicks n q = .ok (cs, q')) :
@@ -291,9 +315,12 @@ theorem QInv_pause_some {K0 : Int} {q : QState} {tl : List Cell} (inv : QInv K0 
     QInv K0 (pause (some m) q).1 (tl.take (K0 + m).toNat) := by
   obtain ⟨ha, hg, hr, hs, hd, hp, hsm⟩ := pause_some_fields m q hm
   have hM : (K0 + m).toNat ≤ tl.length := by have := inv.len; omega
-  refine ⟨WF_pause (some m) inv.wf, Once_pause (some m) inv.once, ?_, ?_, by rw [ha]; exact inv.uid, ?_⟩
+  refine ⟨WF_pause (some m) inv.wf, Once_pause (some m) inv.once, ?_, ?_, by rw [ha]; exact inv.uid,
+    ?_, ?_, ?_⟩
   · rw [hsm]; simp only [List.length_take]; omega
   · intro _ src hsrc; rw [hs] at hsrc; cases hsrc
+  · intro i hi; rw [hg] at hi; exact inv.lenpos i (List.mem_filter.1 hi).1
+  · rw [hg]; exact inv.sorted.sublist List.filter_sublist
   · have hrest : rest (pause (some m) q).1 = [] := by simp [rest, hs, hd, zeros]
     rw [hrest, List.append_nil, hg, ha]
     have : tl.take (K0 + m).toNat = (tl ++ rest q).take (K0 + m).toNat := by
@@ -311,19 +338,22 @@ theorem QInv_pause_none {K0 : Int} {q : QState} {tl : List Cell} (inv : QInv K0 
   have hd := (idle_iff q).1 hi
   exact ⟨WF_pause none inv.wf, Once_pause none inv.once, by simpa [pause] using inv.len,
     fun _ => by simpa [pause, srcDone] using hd, by simpa [pause] using inv.uid,
+    by simpa [pause] using inv.lenpos, by simpa [pause] using inv.sorted,
     by simpa [pause, rest] using inv.emb⟩
 
 theorem QInv_resume_none {K0 : Int} {q : QState} {tl : List Cell} (inv : QInv K0 q tl) :
     QInv K0 (resume none q) tl :=
   ⟨WF_resume none inv.wf, Once_resume none inv.once, by simpa [resume] using inv.len,
     fun h => by simp [resume] at h, by simpa [resume] using inv.uid,
+    by simpa [resume] using inv.lenpos, by simpa [resume] using inv.sorted,
     by simpa [resume, rest] using inv.emb⟩
 
 theorem QInv_resume_some {K0 : Int} {q : QState} {tl : List Cell} (inv : QInv K0 q tl) (m : Int)
     (hm : q.samples ≤ m) (hi : m = q.samples ∨ idle q = true) :
     QInv K0 (resume (some m) q) (tl ++ zeros (m - q.samples).toNat) := by
   refine ⟨WF_resume (some m) inv.wf, Once_resume (some m) inv.once, ?_, fun h => by simp [resume] at h,
-    by simpa [resume] using inv.uid, ?_⟩
+    by simpa [resume] using inv.uid, by simpa [resume] using inv.lenpos,
+    by simpa [resume] using inv.sorted, ?_⟩
   · have := inv.len
     simp only [resume, List.length_append, zeros, List.length_replicate]
     push_cast; omega
